@@ -1,6 +1,6 @@
 (* C08 -- property theorems only.  Proofs live in C08/Proofs*.v. *)
 From Coq Require Import NArith List Bool Permutation.
-From DV Require Import Base.Outcome C08.Gen C08.Model C08.Spec C08.ProofsQuery C08.ProofsBuild C08.ProofsHist C08.ProofsGood C08.ProofsPlain C08.ProofsGroup C08.ProofsSafe C08.ProofsTree C08.ProofsSafe2 C08.ToMessage C08.ProofsOrder.
+From DV Require Import Base.Outcome C08.Gen C08.Model C08.Spec C08.ProofsQuery C08.ProofsBuild C08.ProofsHist C08.ProofsGood C08.ProofsPlain C08.ProofsGroup C08.ProofsSafe C08.ProofsTree C08.ProofsSafe2 C08.ToMessage C08.ProofsOrder C08.ProofsSafe3.
 From DV Require C02.Model C02.ProofsTotal.
 Import ListNotations.
 Local Open Scope N_scope.
@@ -184,6 +184,23 @@ Theorem C08_history_vs_rebuilt_records : forall rs us rs',
   forall q qt, query (run (map OZRec rs ++ us)) q qt = query (run (map OZRec rs')) q qt.
 Proof. exact history_vs_rebuilt_records. Qed.
 Print Assumptions C08_history_vs_rebuilt_records.
+
+(* BeginBatchDelete inside histories that change the delegation / alias state: the state machine also
+   tracks the serial of the published and of the working tree, on which the commit depends *)
+Theorem C08_safe3_history_state : forall zs us, zone_file_only zs = true -> forallb safe3_op us = true ->
+  wfu (run (zs ++ us)) /\
+  forall p, cspecial_at (run (zs ++ us)) p = sp_final3 us (cspecial_at (run zs)) (soa_of (run zs)) p.
+Proof. exact safe3_history_state. Qed.
+Print Assumptions C08_safe3_history_state.
+
+Theorem C08_history_vs_rebuilt_records3 : forall rs us rs',
+  accepted rs = true -> buildable (zf_of_records rs) = true -> forallb safe3_op us = true ->
+  accepted rs' = true -> buildable (zf_of_records rs') = true ->
+  (forall p, rrsets_at (run (map OZRec rs ++ us)) p = rrsets_at (run (map OZRec rs')) p) ->
+  (forall p, rec_state rs' p = sp_final3 us (rec_state rs) (rec_soa rs) p) ->
+  forall q qt, query (run (map OZRec rs ++ us)) q qt = query (run (map OZRec rs')) q qt.
+Proof. exact history_vs_rebuilt_records3. Qed.
+Print Assumptions C08_history_vs_rebuilt_records3.
 
 Theorem C08_zonetree_classes_isolated : forall c p z r r' c' q, c' <> c ->
   (zr_insert c p z r = Ok r' \/ zr_remove c p r = Ok r') ->
